@@ -20,6 +20,7 @@ import (
 	"os"
 	"sort"
 	"strings"
+	"time"
 
 	"github.com/ethereum/go-ethereum/common"
 	"github.com/ethereum/go-ethereum/crypto"
@@ -861,6 +862,60 @@ func longScenario(syncer string, start uint64, fault *syncrig.DBFault, rpc *sync
 	return sc
 }
 
+// sweepScenarios injects one fault at every RPC call index and every database operation index
+// (and, when full, every statement / message position inside the operation) of the two Syncs
+// that matter most: the first sync (two ranges for the multi-event syncer) and the sync that
+// detects a reorganisation.
+func sweepScenarios(full bool) []*Scenario {
+	var out []*Scenario
+	for _, s := range []string{"registry", "sequencer", "multi"} {
+		base := func() *Scenario {
+			sc := &Scenario{Kind: "sync", Syncer: s, Start: 0, Note: "fault sweep"}
+			if s == "multi" {
+				sc.Depth, sc.Range = 3, 4
+				sc.Defs, sc.DefValid = stdDefs()
+			}
+			ev := func(p uint8, idx uint64) []syncrig.Item {
+				return []syncrig.Item{{Tx: 0, Ev: &syncrig.Ev{Eon: 1, P: p, S: 1, TS: 5, Def: 0, Exp: 300, Idx: idx, Gas: "21000"}}}
+			}
+			sc.Blocks = []syncrig.BlockSpec{
+				{Parent: 0, Items: ev(1, 0)}, {Parent: 1, Count: 3}, {Parent: 4, Items: ev(2, 1)}, {Parent: 5, Count: 1}, // 1..6
+				{Parent: 5, Salt: 1, Items: ev(3, 2)}, {Parent: 7, Salt: 1, Items: ev(2, 3)}, // 7 (number 6'), 8 (number 7')
+			}
+			return sc
+		}
+		add := func(step int, rpc *syncrig.RPCFault, db *syncrig.DBFault) {
+			sc := base()
+			sc.Steps = []Step{{Head: 6}, {Head: 8}, {Head: 8}}
+			sc.Steps[step].RPC, sc.Steps[step].DB = rpc, db
+			if step == 0 {
+				sc.Steps = []Step{sc.Steps[0], {Head: 6}, {Head: 8}}
+			}
+			out = append(out, sc)
+		}
+		for step := 0; step < 2; step++ {
+			for call := 0; call < 5; call++ {
+				add(step, &syncrig.RPCFault{Call: call, Kind: []string{"rpc-error", "http-500", "drop"}[call%3]}, nil)
+			}
+			for op := 0; op < 6; op++ {
+				add(step, nil, &syncrig.DBFault{Op: op, Mode: "stmt", Sub: 0})
+				add(step, nil, &syncrig.DBFault{Op: op, Mode: "drop-after-commit"})
+				if full {
+					for sub := 1; sub < 4; sub++ {
+						add(step, nil, &syncrig.DBFault{Op: op, Mode: "stmt", Sub: sub})
+					}
+					for sub := 0; sub < 12; sub++ {
+						add(step, nil, &syncrig.DBFault{Op: op, Mode: "drop", Sub: sub})
+					}
+				} else {
+					add(step, nil, &syncrig.DBFault{Op: op, Mode: "drop", Sub: op})
+				}
+			}
+		}
+	}
+	return out
+}
+
 func forcedScenarios() []*Scenario {
 	var out []*Scenario
 	for _, s := range []string{"registry", "sequencer", "multi"} {
@@ -907,7 +962,12 @@ func main() {
 	}
 	defer rig.Close()
 	w := &world{run: run, rig: rig, empty: rig.PG.Store().Snapshot()}
+	t0 := time.Now()
 	exec := func(sc *Scenario) {
+		if rig.Broken || (!run.Thorough && time.Since(t0) > 150*time.Second) {
+			run.Dist["skipped:rig-broken-or-time-budget"]++
+			return
+		}
 		if sc.Kind == "ranges" {
 			runRanges(run, sc)
 			return
@@ -957,7 +1017,10 @@ func main() {
 	for _, sc := range forcedScenarios() {
 		exec(sc)
 	}
-	n := run.Scale(220, 6000)
+	for _, sc := range sweepScenarios(run.Thorough) {
+		exec(sc)
+	}
+	n := run.Scale(160, 2500)
 	for i := 0; i < n; i++ {
 		exec(genScenario(run.RNG.Fork(), i%5 != 0))
 	}
